@@ -159,79 +159,47 @@ Proof.
   destruct n; cbn [shapeb]; try discriminate. intros H. apply Nat.eqb_eq in H. eauto.
 Qed.
 
-(** ** fresh nodes *)
-Definition val_of (r : look) : option Z :=
-  match r with Absent => Some 0 | Found v => Some v | Bad => None end.
-
-Lemma nth_repeat_0 i n : nth i (repeat 0 n) 0 = 0.
-Proof.
-  revert i; induction n as [|n IH]; intros i; destruct i; cbn; auto.
-Qed.
-
-Lemma alloc_leaf_spec a n a' : alloc_leaf a = (n, a') ->
-  exists o, node_alloc a SZ_LEAF = (o, a') /\ n = Leaf o (repeat 0 16).
-Proof.
-  unfold alloc_leaf. destruct (node_alloc a SZ_LEAF) as [o a1]. intros H; inversion H; subst. eauto.
-Qed.
-
-Lemma alloc_node_spec a n a' : alloc_node a = (n, a') ->
-  exists o, node_alloc a SZ_NODE = (o, a') /\ n = Inner o Nil Nil Nil Nil.
-Proof.
-  unfold alloc_node. destruct (node_alloc a SZ_NODE) as [o a1]. intros H; inversion H; subst. eauto.
-Qed.
-
-(** the node allocated for a missing child at a position with [l] levels below *)
-Definition alloc_at (l : nat) (a : ast) : node * ast :=
-  match l with O => alloc_leaf a | S _ => alloc_node a end.
-
-Lemma alloc_at_shape l a n a' : alloc_at l a = (n, a') -> shapeb l n = true.
-Proof.
-  destruct l as [|l]; cbn [alloc_at]; intros H.
-  - apply alloc_leaf_spec in H. destruct H as (o & _ & ->). reflexivity.
-  - apply alloc_node_spec in H. destruct H as (o & _ & ->). reflexivity.
-Qed.
-
-Lemma alloc_at_find l a n a' idx : alloc_at l a = (n, a') -> val_of (find_rec l n idx) = Some 0.
-Proof.
-  destruct l as [|l]; cbn [alloc_at]; intros H.
-  - apply alloc_leaf_spec in H. destruct H as (o & _ & ->). cbn [find_rec val_of].
-    rewrite nth_repeat_0. reflexivity.
-  - apply alloc_node_spec in H. destruct H as (o & _ & ->). cbn [find_rec child].
-    destruct (cidx idx l =? 0); [reflexivity|]. destruct (cidx idx l =? 1); [reflexivity|].
-    destruct (cidx idx l =? 2); reflexivity.
-Qed.
-
+(** ** fresh nodes; entries *)
 Lemma is_nil_true c : is_nil c = true <-> c = Nil.
 Proof. destruct c; cbn; split; intros H; try reflexivity; discriminate. Qed.
 
 Lemma is_nil_false c : is_nil c = false <-> c <> Nil.
 Proof. destruct c; cbn; split; intros H; try reflexivity; try discriminate; contradiction H; reflexivity. Qed.
 
-(** ** leaf entries *)
+(** what a reader with generation column [kg] sees in a slot *)
+Definition val_of (kg : Z -> Z) (idx : Z) (r : look) : option Z :=
+  match r with
+  | Absent => Some 0
+  | Found v g => Some (if g =? kg idx then v else 0)
+  | Bad => None
+  end.
+
+(** a slot is unchanged, or its (missing) leaf has been allocated and zeroed *)
+Definition entry_ext (r r' : look) : Prop := r' = r \/ (r = Absent /\ r' = Found 0 0).
+
+Lemma val_of_ext kg idx r r' : entry_ext r r' -> val_of kg idx r' = val_of kg idx r.
+Proof.
+  intros [-> | [-> ->]]; [reflexivity|]. cbn [val_of]. destruct (0 =? kg idx); reflexivity.
+Qed.
+
+Lemma entry_ext_refl r : entry_ext r r.
+Proof. left. reflexivity. Qed.
+
+Lemma nth_repeat_00 i n : nth i (repeat (0, 0) n) (0, 0) = (0, 0).
+Proof. revert i; induction n as [|n IH]; intros i; destruct i; cbn; auto. Qed.
+
 Lemma upd_length l : forall i v, length (upd l i v) = length l.
 Proof. induction l as [|x r IH]; intros [|i] v; cbn; auto. Qed.
 
-Lemma nth_upd_same l : forall i v, (i < length l)%nat -> nth i (upd l i v) 0 = v.
+Lemma nth_upd_same l : forall i v, (i < length l)%nat -> nth i (upd l i v) (0, 0) = v.
 Proof.
   induction l as [|x r IH]; intros [|i] v H; cbn in *; try lia; auto. apply IH. lia.
 Qed.
 
-Lemma nth_upd_other l : forall i j v, i <> j -> nth j (upd l i v) 0 = nth j l 0.
+Lemma nth_upd_other l : forall i j v, i <> j -> nth j (upd l i v) (0, 0) = nth j l (0, 0).
 Proof.
   induction l as [|x r IH]; intros [|i] [|j] v H; cbn; auto; try congruence.
 Qed.
-
-(** ** set / find at one subtree *)
-Lemma set_rec_step l o c0 c1 c2 c3 idx v a :
-  set_rec (S l) (Inner o c0 c1 c2 c3) idx v a =
-  let n := Inner o c0 c1 c2 c3 in
-  let ci := cidx idx l in
-  let '(x, a1) := if is_nil (child n ci) then alloc_at l a else (child n ci, a) in
-  match set_rec l x idx v a1 with
-  | Some (c2', a2) => Some (set_child n ci c2', a2)
-  | None => None
-  end.
-Proof. reflexivity. Qed.
 
 Lemma find_rec_step l o c0 c1 c2 c3 idx :
   find_rec (S l) (Inner o c0 c1 c2 c3) idx =
@@ -239,73 +207,9 @@ Lemma find_rec_step l o c0 c1 c2 c3 idx :
   else find_rec l (child (Inner o c0 c1 c2 c3) (cidx idx l)) idx.
 Proof. reflexivity. Qed.
 
-(** the child that [set] descends into: the existing one, or a fresh one *)
-Lemma descend_cases l n ci a x a1 :
-  (if is_nil (child n ci) then alloc_at l a else (child n ci, a)) = (x, a1) ->
-  (child n ci = Nil /\ alloc_at l a = (x, a1)) \/ (child n ci <> Nil /\ x = child n ci /\ a1 = a).
-Proof.
-  destruct (is_nil (child n ci)) eqn:E; intros H.
-  - left. split; [apply is_nil_true; exact E|exact H].
-  - right. inversion H; subst. split; [apply is_nil_false; exact E|split; reflexivity].
-Qed.
-
 Lemma find_non_nil l c idx : c <> Nil ->
   (if is_nil c then Absent else find_rec l c idx) = find_rec l c idx.
 Proof. intros H. apply is_nil_false in H. rewrite H. reflexivity. Qed.
-
-Lemma set_rec_spec levels : forall n idx v a, shapeb levels n = true ->
-  exists n' a', set_rec levels n idx v a = Some (n', a') /\
-    shapeb levels n' = true /\
-    find_rec levels n' idx = Found v /\
-    (forall idx', ~ same_path levels idx idx' ->
-       val_of (find_rec levels n' idx') = val_of (find_rec levels n idx')).
-Proof.
-  induction levels as [|l IH]; intros n idx v a Hs.
-  - apply shape_O_inv in Hs. destruct Hs as (o & es & -> & Hlen).
-    eexists _, _. split; [reflexivity|]. cbn [shapeb find_rec].
-    pose proof (lidx_range idx) as Hr.
-    split; [rewrite upd_length, Hlen; reflexivity|].
-    split; [rewrite nth_upd_same by (rewrite Hlen; lia); reflexivity|].
-    intros idx' Hd. rewrite nth_upd_other; [reflexivity|].
-    intros E. apply Hd. split; [|intros j Hj; lia].
-    pose proof (lidx_range idx'). apply Z2Nat.inj; lia.
-  - destruct (shape_S_inv _ _ Hs) as (o & c0 & c1 & c2 & c3 & ->).
-    rewrite set_rec_step. cbv zeta.
-    set (n := Inner o c0 c1 c2 c3) in *. set (ci := cidx idx l).
-    pose proof (cidx_range idx l) as Hci. fold ci in Hci.
-    destruct (if is_nil (child n ci) then alloc_at l a else (child n ci, a)) as [x a1] eqn:Ed.
-    assert (Hx : shapeb l x = true).
-    { destruct (descend_cases _ _ _ _ _ _ Ed) as [[_ Ha]|[Hnn [-> _]]].
-      - eapply alloc_at_shape; exact Ha.
-      - destruct (okc_child l o c0 c1 c2 c3 ci Hs) as [E|E]; [contradiction|exact E]. }
-    destruct (IH x idx v a1 Hx) as (x' & a2 & Hset & Hs' & Hf & Hfr).
-    rewrite Hset. eexists _, _. split; [reflexivity|].
-    assert (Hx'nn : x' <> Nil) by (intros ->; rewrite shapeb_not_nil in Hs'; discriminate).
-    split; [apply shape_set_child; assumption|].
-    destruct (set_child_inner o c0 c1 c2 c3 ci x') as (d0 & d1 & d2 & d3 & Esc).
-    split.
-    + unfold n. rewrite Esc, find_rec_step, <- Esc. fold ci. rewrite child_set_same by exact Hci.
-      rewrite find_non_nil by exact Hx'nn. exact Hf.
-    + intros idx' Hd. unfold n. rewrite Esc, !find_rec_step, <- Esc.
-      pose proof (cidx_range idx' l) as Hci'.
-      destruct (Z.eq_dec ci (cidx idx' l)) as [E|E].
-      * rewrite <- E, child_set_same by exact Hci. rewrite find_non_nil by exact Hx'nn.
-        assert (Hd' : ~ same_path l idx idx').
-        { intros [Hl Hc]. apply Hd. split; [exact Hl|]. intros j Hj.
-          destruct (Nat.eq_dec j l) as [-> | Hne]; [exact E|apply Hc; lia]. }
-        rewrite (Hfr idx' Hd').
-        destruct (descend_cases _ _ _ _ _ _ Ed) as [[Hnil Ha]|[Hnn [-> _]]].
-        -- fold n. rewrite Hnil. cbn [is_nil val_of]. eapply alloc_at_find; exact Ha.
-        -- fold n. rewrite find_non_nil by exact Hnn. reflexivity.
-      * rewrite child_set_other by (try exact Hci; try exact Hci'; exact E). reflexivity.
-Qed.
-
-(** ** whole trees *)
-Definition wf (t : tree) : Prop := root t = Nil \/ shapeb DEPTH (root t) = true.
-
-Inductive reach : tree -> Prop :=
-| reach_empty : reach empty
-| reach_set : forall t k v t' rc, reach t -> set t k v = Some (t', rc) -> reach t'.
 
 Definition in_range (k : Z) : Prop := 0 <= k < 1024.
 
@@ -322,13 +226,166 @@ Proof.
   rewrite Z.geb_leb. apply Z.leb_le. lia.
 Qed.
 
+Lemma look_tree_in t k : in_range k ->
+  look_tree t k = if is_nil (root t) then Absent else find_rec DEPTH (root t) k.
+Proof. intros H. unfold look_tree. rewrite (out_of_range_false k H). reflexivity. Qed.
+
+Lemma look_tree_out t k : ~ in_range k -> look_tree t k = Absent.
+Proof. intros H. unfold look_tree. rewrite (out_of_range_true k H). reflexivity. Qed.
+
+Lemma get_val_of kg t k : get kg t k = val_of kg k (look_tree t k).
+Proof. reflexivity. Qed.
+
+Lemma get_of_look kg t k v : look_tree t k = Found v (kg k) -> get kg t k = Some v.
+Proof. unfold get. intros ->. rewrite Z.eqb_refl. reflexivity. Qed.
+
+(** a slot written under another generation reads NULL *)
+Lemma stale_hidden kg t k v g : look_tree t k = Found v g -> g <> kg k -> get kg t k = Some 0.
+Proof. unfold get. intros -> H. apply Z.eqb_neq in H. rewrite H. reflexivity. Qed.
+
+Lemma get_kg_ext kg kg' t k : kg k = kg' k -> get kg t k = get kg' t k.
+Proof. unfold get. intros ->. reflexivity. Qed.
+
+Theorem get_empty kg k : get kg empty k = Some 0.
+Proof. unfold get, look_tree. destruct (out_of_range k); reflexivity. Qed.
+
+Lemma find_not_bad l : forall n idx, shapeb l n = true -> find_rec l n idx <> Bad.
+Proof.
+  induction l as [|l IH]; intros n idx Hs.
+  - apply shape_O_inv in Hs. destruct Hs as (o' & es' & -> & _). discriminate.
+  - destruct (shape_S_inv _ _ Hs) as (o' & d0 & d1 & d2 & d3 & ->). rewrite find_rec_step.
+    destruct (is_nil (child (Inner o' d0 d1 d2 d3) (cidx idx l))) eqn:En; [discriminate|].
+    apply is_nil_false in En.
+    destruct (okc_child l o' d0 d1 d2 d3 (cidx idx l) Hs) as [Hc|Hc]; [contradiction|].
+    apply IH. exact Hc.
+Qed.
+
+Definition wf (t : tree) : Prop := root t = Nil \/ shapeb DEPTH (root t) = true.
+
+Lemma wf_empty : wf empty.
+Proof. left. reflexivity. Qed.
+
+Section WithCfg.
+Variable c : cfg.
+
+Lemma alloc_leaf_spec a n a' : alloc_leaf c a = (n, a') ->
+  exists o, node_alloc c a (c_leaf c) = (o, a') /\ n = Leaf o (repeat (0, 0) 16).
+Proof.
+  unfold alloc_leaf. destruct (node_alloc c a (c_leaf c)) as [o a1]. intros H; inversion H; subst. eauto.
+Qed.
+
+Lemma alloc_node_spec a n a' : alloc_node c a = (n, a') ->
+  exists o, node_alloc c a SZ_NODE = (o, a') /\ n = Inner o Nil Nil Nil Nil.
+Proof.
+  unfold alloc_node. destruct (node_alloc c a SZ_NODE) as [o a1]. intros H; inversion H; subst. eauto.
+Qed.
+
+(** the node allocated for a missing child at a position with [l] levels below *)
+Definition alloc_at (l : nat) (a : ast) : node * ast :=
+  match l with O => alloc_leaf c a | S _ => alloc_node c a end.
+
+Lemma alloc_at_shape l a n a' : alloc_at l a = (n, a') -> shapeb l n = true.
+Proof.
+  destruct l as [|l]; cbn [alloc_at]; intros H.
+  - apply alloc_leaf_spec in H. destruct H as (o & _ & ->). reflexivity.
+  - apply alloc_node_spec in H. destruct H as (o & _ & ->). reflexivity.
+Qed.
+
+Lemma alloc_at_find l a n a' idx : alloc_at l a = (n, a') ->
+  find_rec l n idx = Absent \/ find_rec l n idx = Found 0 0.
+Proof.
+  destruct l as [|l]; cbn [alloc_at]; intros H.
+  - apply alloc_leaf_spec in H. destruct H as (o & _ & ->). right. cbn [find_rec].
+    rewrite nth_repeat_00. reflexivity.
+  - apply alloc_node_spec in H. destruct H as (o & _ & ->). left. cbn [find_rec child].
+    destruct (cidx idx l =? 0); [reflexivity|]. destruct (cidx idx l =? 1); [reflexivity|].
+    destruct (cidx idx l =? 2); reflexivity.
+Qed.
+
+(** ** set / find at one subtree *)
+Lemma set_rec_step l o c0 c1 c2 c3 idx e a :
+  set_rec c (S l) (Inner o c0 c1 c2 c3) idx e a =
+  let n := Inner o c0 c1 c2 c3 in
+  let ci := cidx idx l in
+  let '(x, a1) := if is_nil (child n ci) then alloc_at l a else (child n ci, a) in
+  match set_rec c l x idx e a1 with
+  | Some (c2', a2) => Some (set_child n ci c2', a2)
+  | None => None
+  end.
+Proof. reflexivity. Qed.
+
+(** the child that [set] descends into: the existing one, or a fresh one *)
+Lemma descend_cases l n ci a x a1 :
+  (if is_nil (child n ci) then alloc_at l a else (child n ci, a)) = (x, a1) ->
+  (child n ci = Nil /\ alloc_at l a = (x, a1)) \/ (child n ci <> Nil /\ x = child n ci /\ a1 = a).
+Proof.
+  destruct (is_nil (child n ci)) eqn:E; intros H.
+  - left. split; [apply is_nil_true; exact E|exact H].
+  - right. inversion H; subst. split; [apply is_nil_false; exact E|split; reflexivity].
+Qed.
+
+Lemma set_rec_spec levels : forall n idx e a, shapeb levels n = true ->
+  exists n' a', set_rec c levels n idx e a = Some (n', a') /\
+    shapeb levels n' = true /\
+    find_rec levels n' idx = Found (fst e) (snd e) /\
+    (forall idx', ~ same_path levels idx idx' ->
+       entry_ext (find_rec levels n idx') (find_rec levels n' idx')).
+Proof.
+  induction levels as [|l IH]; intros n idx e a Hs.
+  - apply shape_O_inv in Hs. destruct Hs as (o & es & -> & Hlen).
+    eexists _, _. split; [reflexivity|]. cbn [shapeb find_rec].
+    pose proof (lidx_range idx) as Hr.
+    split; [rewrite upd_length, Hlen; reflexivity|].
+    split; [rewrite nth_upd_same by (rewrite Hlen; lia); reflexivity|].
+    intros idx' Hd. left. rewrite nth_upd_other; [reflexivity|].
+    intros E. apply Hd. split; [|intros j Hj; lia].
+    pose proof (lidx_range idx'). apply Z2Nat.inj; lia.
+  - destruct (shape_S_inv _ _ Hs) as (o & c0 & c1 & c2 & c3 & ->).
+    rewrite set_rec_step. cbv zeta.
+    set (n := Inner o c0 c1 c2 c3) in *. set (ci := cidx idx l).
+    pose proof (cidx_range idx l) as Hci. fold ci in Hci.
+    destruct (if is_nil (child n ci) then alloc_at l a else (child n ci, a)) as [x a1] eqn:Ed.
+    assert (Hx : shapeb l x = true).
+    { destruct (descend_cases _ _ _ _ _ _ Ed) as [[_ Ha]|[Hnn [-> _]]].
+      - eapply alloc_at_shape; exact Ha.
+      - destruct (okc_child l o c0 c1 c2 c3 ci Hs) as [E|E]; [contradiction|exact E]. }
+    destruct (IH x idx e a1 Hx) as (x' & a2 & Hset & Hs' & Hf & Hfr).
+    rewrite Hset. eexists _, _. split; [reflexivity|].
+    assert (Hx'nn : x' <> Nil) by (intros ->; rewrite shapeb_not_nil in Hs'; discriminate).
+    split; [apply shape_set_child; assumption|].
+    destruct (set_child_inner o c0 c1 c2 c3 ci x') as (d0 & d1 & d2 & d3 & Esc).
+    split.
+    + unfold n. rewrite Esc, find_rec_step, <- Esc. fold ci. rewrite child_set_same by exact Hci.
+      rewrite find_non_nil by exact Hx'nn. exact Hf.
+    + intros idx' Hd. unfold n. rewrite Esc, !find_rec_step, <- Esc.
+      pose proof (cidx_range idx' l) as Hci'.
+      destruct (Z.eq_dec ci (cidx idx' l)) as [E|E].
+      * rewrite <- E, child_set_same by exact Hci. rewrite (find_non_nil l x') by exact Hx'nn.
+        assert (Hd' : ~ same_path l idx idx').
+        { intros [Hl Hc]. apply Hd. split; [exact Hl|]. intros j Hj.
+          destruct (Nat.eq_dec j l) as [-> | Hne]; [exact E|apply Hc; lia]. }
+        specialize (Hfr idx' Hd').
+        destruct (descend_cases _ _ _ _ _ _ Ed) as [[Hnil Ha]|[Hnn [-> _]]].
+        -- fold n. rewrite Hnil. cbn [is_nil].
+           destruct (alloc_at_find l a x a1 idx' Ha) as [Ef|Ef]; rewrite Ef in Hfr;
+             destruct Hfr as [Hr | [Hr1 Hr2]]; rewrite ?Hr, ?Hr2;
+             try (left; reflexivity); try (right; split; reflexivity); discriminate Hr1.
+        -- fold n. rewrite find_non_nil by exact Hnn. exact Hfr.
+      * rewrite child_set_other by (try exact Hci; try exact Hci'; exact E). left. reflexivity.
+Qed.
+
+(** ** whole trees *)
+Inductive reach : tree -> Prop :=
+| reach_empty : reach empty
+| reach_set : forall kg t k v t' rc, reach t -> set c kg t k v = Some (t', rc) -> reach t'.
+
 (** the root that [set] works on *)
 Definition root_for_set (t : tree) : node * ast :=
-  if is_nil (root t) then alloc_node (pp t, nheap t) else (root t, (pp t, nheap t)).
+  if is_nil (root t) then alloc_node c (pp t, nheap t) else (root t, (pp t, nheap t)).
 
-Lemma set_unfold t k v : in_range k ->
-  set t k v = let '(r, a) := root_for_set t in
-              match set_rec DEPTH r k v a with
+Lemma set_unfold kg t k v : in_range k ->
+  set c kg t k v = let '(r, a) := root_for_set t in
+              match set_rec c DEPTH r k (v, kg k) a with
               | Some (r', (p', h')) => Some (mkTree r' p' h', 0)
               | None => None
               end.
@@ -343,100 +400,114 @@ Proof.
   - right. inversion H; subst. split; [apply is_nil_false; exact E|split; reflexivity].
 Qed.
 
-Lemma find_root_non_nil r k : r <> Nil ->
-  (if is_nil r then Absent else find_rec DEPTH r k) = find_rec DEPTH r k.
-Proof. apply find_non_nil. Qed.
-
-Lemma look_tree_in t k : in_range k ->
-  look_tree t k = if is_nil (root t) then Absent else find_rec DEPTH (root t) k.
-Proof. intros H. unfold look_tree. rewrite (out_of_range_false k H). reflexivity. Qed.
-
-Lemma look_tree_out t k : ~ in_range k -> look_tree t k = Absent.
-Proof. intros H. unfold look_tree. rewrite (out_of_range_true k H). reflexivity. Qed.
-
-Theorem set_in_range_spec t k v : wf t -> in_range k ->
-  exists t', set t k v = Some (t', 0) /\ wf t' /\ root t' <> Nil /\
-    look_tree t' k = Found v /\
-    (forall k', k' <> k -> get t' k' = get t k').
+Theorem set_in_range_spec kg t k v : wf t -> in_range k ->
+  exists t', set c kg t k v = Some (t', 0) /\ wf t' /\ root t' <> Nil /\
+    look_tree t' k = Found v (kg k) /\
+    (forall k', k' <> k -> entry_ext (look_tree t k') (look_tree t' k')).
 Proof.
-  intros Hwf Hk. rewrite (set_unfold t k v Hk).
+  intros Hwf Hk. rewrite (set_unfold kg t k v Hk).
   destruct (root_for_set t) as [r a] eqn:Er.
   assert (Hr : shapeb DEPTH r = true).
   { destruct (root_for_set_cases _ _ _ Er) as [[_ Ha]|[Hnn [-> _]]].
     - eapply alloc_at_shape; exact Ha.
     - destruct Hwf as [E|E]; [contradiction|exact E]. }
-  destruct (set_rec_spec DEPTH r k v a Hr) as (r' & [p' h'] & Hset & Hs' & Hf & Hfr).
+  destruct (set_rec_spec DEPTH r k (v, kg k) a Hr) as (r' & [p' h'] & Hset & Hs' & Hf & Hfr).
   rewrite Hset. eexists. split; [reflexivity|].
   assert (Hnn : r' <> Nil) by (intros ->; rewrite shapeb_not_nil in Hs'; discriminate).
   split; [right; exact Hs'|]. split; [exact Hnn|].
   split.
-  - rewrite look_tree_in by exact Hk. cbn [root]. rewrite find_root_non_nil by exact Hnn. exact Hf.
-  - intros k' Hne. unfold get.
+  - rewrite look_tree_in by exact Hk. cbn [root]. rewrite find_non_nil by exact Hnn. exact Hf.
+  - intros k' Hne.
     destruct (Z_lt_dec k' 0) as [Hlo|Hlo];
-      [rewrite !look_tree_out by (unfold in_range; lia); reflexivity|].
+      [rewrite !look_tree_out by (unfold in_range; lia); apply entry_ext_refl|].
     destruct (Z_lt_dec k' 1024) as [Hhi|Hhi];
-      [|rewrite !look_tree_out by (unfold in_range; lia); reflexivity].
+      [|rewrite !look_tree_out by (unfold in_range; lia); apply entry_ext_refl].
     assert (Hk' : in_range k') by (unfold in_range; lia).
-    rewrite !look_tree_in by exact Hk'. cbn [root]. rewrite find_root_non_nil by exact Hnn.
+    rewrite !look_tree_in by exact Hk'. cbn [root]. rewrite (find_non_nil DEPTH r') by exact Hnn.
     assert (Hd : ~ same_path DEPTH k k').
     { intros Hp. apply Hne. symmetry. apply same_path_eq; assumption. }
-    fold (val_of (find_rec DEPTH r' k')). rewrite (Hfr k' Hd).
+    specialize (Hfr k' Hd).
     destruct (root_for_set_cases _ _ _ Er) as [[Hnil Ha]|[Hnn' [-> _]]].
-    + rewrite Hnil. cbn [is_nil val_of]. eapply alloc_at_find; exact Ha.
-    + rewrite find_root_non_nil by exact Hnn'. reflexivity.
+    + rewrite Hnil. cbn [is_nil].
+      destruct (alloc_at_find DEPTH _ r a k' Ha) as [Ef|Ef]; rewrite Ef in Hfr;
+        destruct Hfr as [Hr0 | [Hr1 Hr2]]; rewrite ?Hr0, ?Hr2;
+        try (left; reflexivity); try (right; split; reflexivity); discriminate Hr1.
+    + rewrite find_non_nil by exact Hnn'. exact Hfr.
 Qed.
 
-Lemma set_out_of_range t k v : ~ in_range k -> set t k v = Some (t, EINVAL).
+Lemma set_out_of_range kg t k v : ~ in_range k -> set c kg t k v = Some (t, EINVAL).
 Proof. intros H. unfold set. rewrite (out_of_range_true k H). reflexivity. Qed.
 
-Lemma wf_empty : wf empty.
-Proof. left. reflexivity. Qed.
+(** either the key is out of range and nothing happens, or it is in range *)
+Lemma set_cases kg t k v t' rc : set c kg t k v = Some (t', rc) ->
+  (~ in_range k /\ t' = t /\ rc = EINVAL) \/ in_range k.
+Proof.
+  intros Hset.
+  destruct (Z_lt_dec k 0) as [Hlo|Hlo];
+    [rewrite set_out_of_range in Hset by (unfold in_range; lia); inversion Hset; subst;
+     left; unfold in_range; split; [lia|split; reflexivity]|].
+  destruct (Z_lt_dec k 1024) as [Hhi|Hhi];
+    [right; unfold in_range; lia|].
+  rewrite set_out_of_range in Hset by (unfold in_range; lia). inversion Hset; subst.
+  left; unfold in_range; split; [lia|split; reflexivity].
+Qed.
 
 Lemma reach_wf t : reach t -> wf t.
 Proof.
-  induction 1 as [|t k v t' rc Hr IH Hset]; [exact wf_empty|].
-  destruct (Z_lt_dec k 0) as [Hlo|Hlo];
-    [rewrite set_out_of_range in Hset by (unfold in_range; lia); inversion Hset; subst; exact IH|].
-  destruct (Z_lt_dec k 1024) as [Hhi|Hhi];
-    [|rewrite set_out_of_range in Hset by (unfold in_range; lia); inversion Hset; subst; exact IH].
-  destruct (set_in_range_spec t k v IH) as (t2 & H1 & H2 & _); [unfold in_range; lia|].
+  induction 1 as [|kg t k v t' rc Hr IH Hset]; [exact wf_empty|].
+  destruct (set_cases _ _ _ _ _ _ Hset) as [(_ & -> & _)|Hk]; [exact IH|].
+  destruct (set_in_range_spec kg t k v IH Hk) as (t2 & H1 & H2 & _).
   rewrite H1 in Hset. inversion Hset; subst. exact H2.
 Qed.
 
-Lemma get_of_look t k v : look_tree t k = Found v -> get t k = Some v.
-Proof. unfold get. intros ->. reflexivity. Qed.
-
 (** *** the theorems of C10 part 1 *)
-Theorem get_after_set t k v : reach t -> in_range k ->
-  exists t', set t k v = Some (t', 0) /\ get t' k = Some v.
+Theorem get_after_set kg t k v : reach t -> in_range k ->
+  exists t', set c kg t k v = Some (t', 0) /\ get kg t' k = Some v.
 Proof.
-  intros Hr Hk. destruct (set_in_range_spec t k v (reach_wf t Hr) Hk) as (t' & H1 & _ & _ & H2 & _).
+  intros Hr Hk. destruct (set_in_range_spec kg t k v (reach_wf t Hr) Hk) as (t' & H1 & _ & _ & H2 & _).
   exists t'. split; [exact H1|apply get_of_look; exact H2].
 Qed.
 
-Theorem set_frame t k v t' rc k' : reach t -> set t k v = Some (t', rc) -> k' <> k ->
-  get t' k' = get t k'.
+(** a store leaves every other slot as it was (or allocates and zeroes its leaf) *)
+Lemma set_entries kg t k v t' rc k' : reach t -> set c kg t k v = Some (t', rc) -> k' <> k ->
+  entry_ext (look_tree t k') (look_tree t' k').
 Proof.
   intros Hr Hset Hne.
-  destruct (Z_lt_dec k 0) as [Hlo|Hlo];
-    [rewrite set_out_of_range in Hset by (unfold in_range; lia); inversion Hset; subst; reflexivity|].
-  destruct (Z_lt_dec k 1024) as [Hhi|Hhi];
-    [|rewrite set_out_of_range in Hset by (unfold in_range; lia); inversion Hset; subst; reflexivity].
-  destruct (set_in_range_spec t k v (reach_wf t Hr)) as (t2 & H1 & _ & _ & _ & H2); [unfold in_range; lia|].
+  destruct (set_cases _ _ _ _ _ _ Hset) as [(_ & -> & _)|Hk]; [apply entry_ext_refl|].
+  destruct (set_in_range_spec kg t k v (reach_wf t Hr) Hk) as (t2 & H1 & _ & _ & _ & H2).
   rewrite H1 in Hset. inversion Hset; subst. apply H2. exact Hne.
 Qed.
 
-Theorem get_empty k : get empty k = Some 0.
-Proof. unfold get, look_tree. destruct (out_of_range k); reflexivity. Qed.
+(** ... so whoever reads, with whatever generation column, reads the same under every other key *)
+Theorem set_frame kg t k v t' rc k' kg' : reach t -> set c kg t k v = Some (t', rc) -> k' <> k ->
+  get kg' t' k' = get kg' t k'.
+Proof.
+  intros Hr Hset Hne. rewrite !get_val_of. apply val_of_ext. eapply set_entries; eassumption.
+Qed.
 
-Theorem out_of_range_rejected t k v : ~ in_range k ->
-  set t k v = Some (t, EINVAL) /\ get t k = Some 0.
+(** what a slot can hold after a store *)
+Lemma set_slot kg t k v t' rc k' v' g' : reach t -> set c kg t k v = Some (t', rc) ->
+  look_tree t' k' = Found v' g' ->
+  (k' = k /\ in_range k /\ v' = v /\ g' = kg k) \/ look_tree t k' = Found v' g' \/ (v' = 0 /\ g' = 0).
+Proof.
+  intros Hr Hset Hl. destruct (Z.eq_dec k' k) as [->|Hne].
+  - destruct (set_cases _ _ _ _ _ _ Hset) as [(_ & -> & _)|Hk]; [right; left; exact Hl|].
+    destruct (set_in_range_spec kg t k v (reach_wf t Hr) Hk) as (t2 & H1 & _ & _ & H2 & _).
+    rewrite H1 in Hset. inversion Hset; subst. rewrite H2 in Hl. inversion Hl; subst. left. tauto.
+  - destruct (set_entries kg t k v t' rc k' Hr Hset Hne) as [E|[E1 E2]].
+    + right. left. rewrite <- E. exact Hl.
+    + rewrite E2 in Hl. inversion Hl; subst. right. right. tauto.
+Qed.
+
+Theorem out_of_range_rejected kg t k v : ~ in_range k ->
+  set c kg t k v = Some (t, EINVAL) /\ get kg t k = Some 0.
 Proof.
   intros H. split; [apply set_out_of_range; exact H|].
   unfold get. rewrite look_tree_out by exact H. reflexivity.
 Qed.
 
-Theorem set_total t k v : reach t -> exists t' rc, set t k v = Some (t', rc) /\ (rc = 0 <-> in_range k).
+Theorem set_total kg t k v : reach t ->
+  exists t' rc, set c kg t k v = Some (t', rc) /\ (rc = 0 <-> in_range k).
 Proof.
   intros Hr.
   destruct (Z_lt_dec k 0) as [Hlo|Hlo].
@@ -446,22 +517,11 @@ Proof.
   2:{ exists t, EINVAL. split; [apply set_out_of_range; unfold in_range; lia|].
       unfold EINVAL, in_range. split; [discriminate|lia]. }
   assert (Hk : in_range k) by (unfold in_range; lia).
-  destruct (set_in_range_spec t k v (reach_wf t Hr) Hk) as (t' & H1 & _).
+  destruct (set_in_range_spec kg t k v (reach_wf t Hr) Hk) as (t' & H1 & _).
   exists t', 0. split; [exact H1|]. split; [intros _; exact Hk|reflexivity].
 Qed.
 
-Lemma find_not_bad l : forall n idx, shapeb l n = true -> find_rec l n idx <> Bad.
-Proof.
-  induction l as [|l IH]; intros n idx Hs.
-  - apply shape_O_inv in Hs. destruct Hs as (o' & es' & -> & _). discriminate.
-  - destruct (shape_S_inv _ _ Hs) as (o' & d0 & d1 & d2 & d3 & ->). rewrite find_rec_step.
-    destruct (is_nil (child (Inner o' d0 d1 d2 d3) (cidx idx l))) eqn:En; [discriminate|].
-    apply is_nil_false in En.
-    destruct (okc_child l o' d0 d1 d2 d3 (cidx idx l) Hs) as [Hc|Hc]; [contradiction|].
-    apply IH. exact Hc.
-Qed.
-
-Theorem get_total t k : reach t -> exists v, get t k = Some v.
+Theorem get_total kg t k : reach t -> exists v, get kg t k = Some v.
 Proof.
   intros Hr. pose proof (reach_wf t Hr) as Hwf. unfold get, look_tree.
   destruct (out_of_range k); [eauto|].
@@ -471,29 +531,50 @@ Proof.
   destruct (find_rec DEPTH (root t) k); [eauto|eauto|contradiction].
 Qed.
 
-(** every list of (key, value) pairs drives the empty tree to a reachable tree,
-    and every reachable tree arises that way *)
-Lemma set_all_reach kvs : forall t, reach t -> exists t', set_all t kvs = Some t' /\ reach t'.
+(** every list of (key, value) pairs drives the empty tree to a reachable tree *)
+Lemma set_all_reach kg kvs : forall t, reach t -> exists t', set_all c kg t kvs = Some t' /\ reach t'.
 Proof.
   induction kvs as [|[k v] r IH]; intros t Hr; cbn [set_all]; [eauto|].
-  destruct (set_total t k v Hr) as (t1 & rc & H1 & _). rewrite H1.
+  destruct (set_total kg t k v Hr) as (t1 & rc & H1 & _). rewrite H1.
   apply IH. eapply reach_set; eassumption.
 Qed.
 
-Lemma set_all_app a : forall t t1, set_all t a = Some t1 -> forall b, set_all t (a ++ b) = set_all t1 b.
+Lemma set_all_some_reach kg kvs : forall t t', reach t -> set_all c kg t kvs = Some t' -> reach t'.
 Proof.
-  induction a as [|[k v] r IH]; intros t t1 H b; cbn [set_all app] in *.
-  - inversion H; reflexivity.
-  - destruct (set t k v) as [[t2 rc]|]; [|discriminate]. apply IH. exact H.
+  induction kvs as [|[k v] r IH]; intros t t' Hr H; cbn [set_all] in H.
+  - inversion H; subst; exact Hr.
+  - destruct (set c kg t k v) as [[t1 rc]|] eqn:E; [|discriminate].
+    eapply IH; [|exact H]. eapply reach_set; eassumption.
 Qed.
 
-Lemma reach_set_all t : reach t -> exists kvs, set_all empty kvs = Some t.
+(** ... and every reachable tree arises from a list of stores (each with the
+    generation column of its moment) *)
+Fixpoint set_steps (t : tree) (l : list ((Z -> Z) * Z * Z)) : option tree :=
+  match l with
+  | [] => Some t
+  | (kg, k, v) :: r => match set c kg t k v with
+                       | Some (t', _) => set_steps t' r
+                       | None => None
+                       end
+  end.
+
+Lemma set_steps_app a : forall t t1, set_steps t a = Some t1 -> forall b, set_steps t (a ++ b) = set_steps t1 b.
 Proof.
-  induction 1 as [|t k v t' rc Hr [kvs IH] Hset]; [exists []; reflexivity|].
-  exists (kvs ++ [(k, v)]). rewrite (set_all_app _ _ _ IH). cbn [set_all]. rewrite Hset. reflexivity.
+  induction a as [|[[kg k] v] r IH]; intros t t1 H b; cbn [set_steps app] in *.
+  - inversion H; reflexivity.
+  - destruct (set c kg t k v) as [[t2 rc]|]; [|discriminate]. apply IH. exact H.
+Qed.
+
+Lemma reach_set_steps t : reach t -> exists l, set_steps empty l = Some t.
+Proof.
+  induction 1 as [|kg t k v t' rc Hr [l IH] Hset]; [exists []; reflexivity|].
+  exists (l ++ [(kg, k, v)]). rewrite (set_steps_app _ _ _ IH). cbn [set_steps]. rewrite Hset. reflexivity.
 Qed.
 
 (** ** the bump pool *)
+Hypothesis leaf_pos : 0 < c_leaf c.
+Hypothesis pool_nonneg : 0 <= c_pool c.
+
 Definition org_ok (a : ast) (x : origin * Z) : Prop :=
   match fst x with
   | Pool off => 0 <= off /\ off + snd x <= fst a
@@ -501,22 +582,22 @@ Definition org_ok (a : ast) (x : origin * Z) : Prop :=
   end.
 
 Definition pool_inv (ns : list (origin * Z)) (a : ast) : Prop :=
-  0 <= fst a <= POOL_SZ /\ 0 <= snd a /\ Forall (org_ok a) ns /\ NoDup (map fst ns) /\
+  0 <= fst a <= c_pool c /\ 0 <= snd a /\ Forall (org_ok a) ns /\ NoDup (map fst ns) /\
   Forall (fun x => 0 < snd x) ns.
 
 Inductive fresh_chain : ast -> list (origin * Z) -> ast -> Prop :=
 | fc_nil : forall a, fresh_chain a [] a
-| fc_cons : forall a sz o a1 rest a', 0 < sz -> node_alloc a sz = (o, a1) ->
+| fc_cons : forall a sz o a1 rest a', 0 < sz -> node_alloc c a sz = (o, a1) ->
     fresh_chain a1 rest a' -> fresh_chain a ((o, sz) :: rest) a'.
 
 Lemma org_ok_mono a a' x : fst a <= fst a' -> snd a <= snd a' -> org_ok a x -> org_ok a' x.
 Proof. unfold org_ok. destruct (fst x); lia. Qed.
 
-Lemma pool_inv_alloc ns a sz o a1 : pool_inv ns a -> 0 < sz -> node_alloc a sz = (o, a1) ->
+Lemma pool_inv_alloc ns a sz o a1 : pool_inv ns a -> 0 < sz -> node_alloc c a sz = (o, a1) ->
   pool_inv ((o, sz) :: ns) a1.
 Proof.
   intros (Hp & Hh & Hok & Hnd & Hsz) Hpos Ha. destruct a as [p h]. cbn [fst snd] in *.
-  unfold node_alloc in Ha. destruct (p + sz <=? POOL_SZ) eqn:E; inversion Ha; subst; clear Ha.
+  unfold node_alloc in Ha. destruct (p + sz <=? c_pool c) eqn:E; inversion Ha; subst; clear Ha.
   - apply Z.leb_le in E. unfold pool_inv. cbn [fst snd map].
     split; [lia|]. split; [lia|]. split.
     + constructor; [unfold org_ok; cbn; lia|].
@@ -560,11 +641,11 @@ Proof.
 Qed.
 
 Lemma alloc_at_chain l a n a' : alloc_at l a = (n, a') ->
-  exists o sz, fresh_chain a [(o, sz)] a' /\ nodes n = [(o, sz)].
+  exists o sz, fresh_chain a [(o, sz)] a' /\ nodes c n = [(o, sz)].
 Proof.
   destruct l as [|l]; cbn [alloc_at]; intros H.
-  - apply alloc_leaf_spec in H. destruct H as (o & Ha & ->). exists o, SZ_LEAF.
-    split; [|reflexivity]. econstructor; [unfold SZ_LEAF; lia|exact Ha|constructor].
+  - apply alloc_leaf_spec in H. destruct H as (o & Ha & ->). exists o, (c_leaf c).
+    split; [|reflexivity]. econstructor; [exact leaf_pos|exact Ha|constructor].
   - apply alloc_node_spec in H. destruct H as (o & Ha & ->). exists o, SZ_NODE.
     split; [|reflexivity]. econstructor; [unfold SZ_NODE; lia|exact Ha|constructor].
 Qed.
@@ -576,25 +657,25 @@ Proof.
   apply Permutation_app_tail. apply Permutation_app_comm.
 Qed.
 
-Lemma nodes_set_child o c0 c1 c2 c3 c x new : 0 <= c < 4 ->
-  Permutation (nodes x) (new ++ nodes (child (Inner o c0 c1 c2 c3) c)) ->
-  Permutation (nodes (set_child (Inner o c0 c1 c2 c3) c x)) (new ++ nodes (Inner o c0 c1 c2 c3)).
+Lemma nodes_set_child o c0 c1 c2 c3 ci x new : 0 <= ci < 4 ->
+  Permutation (nodes c x) (new ++ nodes c (child (Inner o c0 c1 c2 c3) ci)) ->
+  Permutation (nodes c (set_child (Inner o c0 c1 c2 c3) ci x)) (new ++ nodes c (Inner o c0 c1 c2 c3)).
 Proof.
-  intros Hc P. destruct (four c Hc) as [-> | [-> | [-> | ->]]]; cbn in P |- *;
+  intros Hc P. destruct (four ci Hc) as [-> | [-> | [-> | ->]]]; cbn in P |- *;
     (eapply Permutation_trans; [|apply Permutation_middle]); apply perm_skip.
-  - apply (perm_ins [] (nodes x) new (nodes c0) (nodes c1 ++ nodes c2 ++ nodes c3) P).
-  - apply (perm_ins (nodes c0) (nodes x) new (nodes c1) (nodes c2 ++ nodes c3) P).
-  - pose proof (perm_ins (nodes c0 ++ nodes c1) (nodes x) new (nodes c2) (nodes c3) P) as G.
+  - apply (perm_ins [] (nodes c x) new (nodes c c0) (nodes c c1 ++ nodes c c2 ++ nodes c c3) P).
+  - apply (perm_ins (nodes c c0) (nodes c x) new (nodes c c1) (nodes c c2 ++ nodes c c3) P).
+  - pose proof (perm_ins (nodes c c0 ++ nodes c c1) (nodes c x) new (nodes c c2) (nodes c c3) P) as G.
     rewrite <- !app_assoc in G. exact G.
-  - pose proof (perm_ins (nodes c0 ++ nodes c1 ++ nodes c2) (nodes x) new (nodes c3) [] P) as G.
+  - pose proof (perm_ins (nodes c c0 ++ nodes c c1 ++ nodes c c2) (nodes c x) new (nodes c c3) [] P) as G.
     rewrite <- !app_assoc in G. rewrite !app_nil_r in G. exact G.
 Qed.
 
-Lemma set_rec_nodes levels : forall n idx v a n' a', shapeb levels n = true ->
-  set_rec levels n idx v a = Some (n', a') ->
-  exists new, fresh_chain a new a' /\ Permutation (nodes n') (new ++ nodes n).
+Lemma set_rec_nodes levels : forall n idx e a n' a', shapeb levels n = true ->
+  set_rec c levels n idx e a = Some (n', a') ->
+  exists new, fresh_chain a new a' /\ Permutation (nodes c n') (new ++ nodes c n).
 Proof.
-  induction levels as [|l IH]; intros n idx v a n' a' Hs Hset.
+  induction levels as [|l IH]; intros n idx e a n' a' Hs Hset.
   - apply shape_O_inv in Hs. destruct Hs as (o & es & -> & _). cbn [set_rec] in Hset.
     inversion Hset; subst. exists []. split; [constructor|reflexivity].
   - destruct (shape_S_inv _ _ Hs) as (o & c0 & c1 & c2 & c3 & ->).
@@ -602,7 +683,7 @@ Proof.
     pose proof (cidx_range idx l) as Hci.
     destruct (if is_nil (child (Inner o c0 c1 c2 c3) (cidx idx l)) then alloc_at l a
               else (child (Inner o c0 c1 c2 c3) (cidx idx l), a)) as [x a1] eqn:Ed.
-    destruct (set_rec l x idx v a1) as [[x' a2]|] eqn:Er; [|discriminate].
+    destruct (set_rec c l x idx e a1) as [[x' a2]|] eqn:Er; [|discriminate].
     inversion Hset; subst; clear Hset.
     destruct (descend_cases _ _ _ _ _ _ Ed) as [[Hnil Ha]|[Hnn [-> ->]]].
     + pose proof (alloc_at_shape _ _ _ _ Ha) as Hx.
@@ -617,21 +698,17 @@ Proof.
       exists new. split; [exact Hc|]. apply nodes_set_child; [exact Hci|exact P].
 Qed.
 
-Definition tree_pool_inv (t : tree) : Prop := pool_inv (nodes (root t)) (pp t, nheap t).
+Definition tree_pool_inv (t : tree) : Prop := pool_inv (nodes c (root t)) (pp t, nheap t).
 
 Theorem reach_pool_inv t : reach t -> tree_pool_inv t.
 Proof.
-  induction 1 as [|t k v t' rc Hr IH Hset].
-  - unfold tree_pool_inv, pool_inv, empty, POOL_SZ. cbn.
-    repeat split; try lia; constructor.
-  - destruct (Z_lt_dec k 0) as [Hlo|Hlo];
-      [rewrite set_out_of_range in Hset by (unfold in_range; lia); inversion Hset; subst; exact IH|].
-    destruct (Z_lt_dec k 1024) as [Hhi|Hhi];
-      [|rewrite set_out_of_range in Hset by (unfold in_range; lia); inversion Hset; subst; exact IH].
-    assert (Hk : in_range k) by (unfold in_range; lia).
-    rewrite (set_unfold t k v Hk) in Hset.
+  induction 1 as [|kg t k v t' rc Hr IH Hset].
+  - unfold tree_pool_inv, pool_inv, empty. cbn.
+    repeat split; try lia; try exact pool_nonneg; constructor.
+  - destruct (set_cases _ _ _ _ _ _ Hset) as [(_ & -> & _)|Hk]; [exact IH|].
+    rewrite (set_unfold kg t k v Hk) in Hset.
     destruct (root_for_set t) as [r a] eqn:Er.
-    destruct (set_rec DEPTH r k v a) as [[r' [p' h']]|] eqn:Es; [|discriminate].
+    destruct (set_rec c DEPTH r k (v, kg k) a) as [[r' [p' h']]|] eqn:Es; [|discriminate].
     inversion Hset; subst; clear Hset. unfold tree_pool_inv in *. cbn [root pp nheap].
     destruct (root_for_set_cases _ _ _ Er) as [[Hnil Ha]|[Hnn [-> ->]]].
     + pose proof (alloc_at_shape _ _ _ _ Ha) as Hs.
@@ -650,13 +727,13 @@ Proof.
 Qed.
 
 (** C10: the pool never overruns its buffer - every node carved from the pool
-    lies inside [0, POOL_SZ), the bump pointer stays inside [0, POOL_SZ], and
+    lies inside [0, c_pool), the bump pointer stays inside [0, c_pool], and
     no two nodes share their memory origin *)
 Theorem pool_never_overruns t : reach t ->
-  0 <= pp t <= POOL_SZ /\
-  (forall off sz, In (Pool off, sz) (nodes (root t)) -> 0 <= off /\ off + sz <= pp t /\ 0 < sz) /\
-  (forall id sz, In (Heap id, sz) (nodes (root t)) -> 0 <= id < nheap t) /\
-  NoDup (map fst (nodes (root t))).
+  0 <= pp t <= c_pool c /\
+  (forall off sz, In (Pool off, sz) (nodes c (root t)) -> 0 <= off /\ off + sz <= pp t /\ 0 < sz) /\
+  (forall id sz, In (Heap id, sz) (nodes c (root t)) -> 0 <= id < nheap t) /\
+  NoDup (map fst (nodes c (root t))).
 Proof.
   intros Hr. destruct (reach_pool_inv t Hr) as (Hp & Hh & Hok & Hnd & Hsz). cbn [fst snd] in *.
   rewrite Forall_forall in Hok, Hsz.
@@ -665,3 +742,9 @@ Proof.
     unfold org_ok in H1. cbn in H1, H2. lia.
   - intros id sz Hin. pose proof (Hok _ Hin) as H1. unfold org_ok in H1. cbn in H1. exact H1.
 Qed.
+End WithCfg.
+
+Lemma cfg_plain_ok : 0 < c_leaf cfg_plain /\ 0 <= c_pool cfg_plain.
+Proof. cbn. lia. Qed.
+Lemma cfg_tagged_ok : 0 < c_leaf cfg_tagged /\ 0 <= c_pool cfg_tagged.
+Proof. cbn. lia. Qed.
